@@ -92,15 +92,20 @@ def byline_expected(scenario, agree, p, nlines, members=2):
         keep = agree
         skip_all = False
         aborted = False
+        voters = 0
         for m in range(members):
             cp = f"cp{m}"
             if scenario == "norun" and m == 1:
                 continue   # run-mode: no-run — the member sits the run out, as it does in a serial run
             if cp in stopped:
+                # a member that has stopped does not match the lines after it: under if_all_agree they are not in the intersection
+                if agree:
+                    keep = False
                 continue
             if skip_all:
                 ev.append(("track_line", (cp, L)))
                 continue
+            voters += 1
             ev.append(("track_line", (cp, L)))
             ev.append(("_consider_line", (cp, L)))
             if scenario == "abort":
@@ -120,7 +125,7 @@ def byline_expected(scenario, agree, p, nlines, members=2):
             if ch.get(f"skip_all({L})") and m == 0:
                 skip_all = True
             keep = (keep and matched) if agree else (keep or matched)
-        if keep:
+        if keep and voters:
             yields.append(L)
         if len(stopped) == members - (1 if scenario == "norun" else 0) and scenario == "norun":
             pass   # the run may read on to the end of the file: nobody is left to see the lines
